@@ -2,7 +2,8 @@ package main
 
 // component "timeout" (C17, runtime part): a pipeline root -> inner -> leaf (root with an error handler) in which one node
 // stalls; measured: time between the source's Start returning and Execute returning.
-// input: "to <timeoutSec> stall=<root|inner|leaf|handler|none>:<forever|long> n=<events> fill=<0|1> pw=<parent workers> hw=<handler workers>"
+// input: "to <timeoutSec> stall=<root|inner|leaf|handler|none>:<forever|long|send> n=<events> fill=<0|1> pw=<parent workers> hw=<handler workers>"
+// send = the node is stalled forever inside Executor.SendMessage (a message sender that never returns)
 
 import (
 	"fmt"
@@ -12,8 +13,16 @@ import (
 
 	"github.com/digitalocean/firebolt/config"
 	"github.com/digitalocean/firebolt/executor"
+	"github.com/digitalocean/firebolt/message"
 	"github.com/digitalocean/firebolt/node"
 )
+
+// blockingSender is a message sender whose Send/Ack never return until the gate opens
+type blockingSender struct{ gate chan struct{} }
+
+func (b *blockingSender) Send(msg message.Message) error { <-b.gate; return nil }
+func (b *blockingSender) Ack(msg message.Message) error  { <-b.gate; return nil }
+func (b *blockingSender) Shutdown()                      {}
 
 func init() {
 	register("timeout", &component{gen: genTimeout, exec: execTimeout})
@@ -27,6 +36,7 @@ func genTimeout(r *rng, n int, tier string, emit func(string)) {
 	emit("to 6 stall=leaf:forever n=3 fill=0 pw=1 hw=1")
 	emit("to 5 stall=none:forever n=25 fill=0 pw=2 hw=1")
 	emit("to 1 stall=leaf:forever n=80 fill=1 pw=1 hw=1")
+	emit("to 1 stall=inner:send n=2 fill=0 pw=1 hw=1")
 	if tier == "thorough" {
 		for i := 0; i < n; i++ {
 			role := r.pickS("root", "inner", "leaf", "handler")
@@ -34,7 +44,7 @@ func genTimeout(r *rng, n int, tier string, emit func(string)) {
 			// keep the number of events within what the pipeline can absorb above the stalled node, so that the main loop is
 			// not blocked on a full root buffer (that situation is the separate fill=1 scenario, known finding F6)
 			room := map[string]int{"root": pw + 1, "inner": pw + 2, "leaf": pw + 4, "handler": hw + 6}[role]
-			emit(fmt.Sprintf("to %d stall=%s:%s n=%d fill=0 pw=%d hw=%d", r.pick(1, 2, 6), role, r.pickS("forever", "long"), r.intn(room)+1, pw, hw))
+			emit(fmt.Sprintf("to %d stall=%s:%s n=%d fill=0 pw=%d hw=%d", r.pick(1, 2, 6), role, r.pickS("forever", "long", "send"), r.intn(room)+1, pw, hw))
 		}
 		emit("to 2 stall=inner:forever n=120 fill=1 pw=2 hw=1")
 		emit("to 3 stall=none:forever n=40 fill=0 pw=1 hw=1")
@@ -105,6 +115,14 @@ func execTimeout(input string) string {
 	ex, err := executor.New(executor.WithConfig(cfg))
 	if err != nil {
 		return "harness-error " + err.Error()
+	}
+	if mode == "send" {
+		message.VerifSetSender(&blockingSender{gate: gate})
+		for _, sp := range specs {
+			if sp.gate != nil {
+				sp.gateFn = func() { _ = ex.SendMessage(message.Message{MessageType: "t", Key: "k"}) }
+			}
+		}
 	}
 	done := make(chan time.Time, 1)
 	go func() {
